@@ -66,6 +66,7 @@ def run(chk, repo, tier):
     run_f10_f11(chk, repo)
     run_f12(chk, repo)
     run_f13_f14(chk, repo)
+    run_f15(chk, repo)
     # subs() / free_symbols of the statement classes must reach every expression field: every refactoring that renames,
     # inlines or substitutes a symbol goes through them (rule D1 of C10)
     from rules.C02b import run_b23
@@ -730,3 +731,37 @@ def run_f13_f14(chk, repo):
                               'the other way', line=I.lineno,
                               witness='$SIGMA 1 FIX (or a fixed omega) then cleanup_model: the epsilon is replaced by 0 and '
                                       'its variance parameter dropped')
+
+
+def run_f15(chk, repo):
+    """F15: the evaluate_* functions work on "the dataset of the model, or the one given as argument": after the one place that
+    resolves this (`df = model.dataset if dataset is None else dataset`) everything is computed from the resolved frame. A later
+    read of model.dataset (directly or in a helper that gets the model) uses the individuals / records of the model's own data
+    for a dataset that was passed in"""
+    F15 = chk.rule('F15', 'modeling/evaluation.py: a function with a `dataset` argument reads model.dataset only where it resolves '
+                          'the default of that argument', floor=4)
+    em = repo.module('pharmpy.modeling.evaluation')
+    n = 0
+    for f in dict.values(em.functions):
+        if f.parent is not None or 'dataset' not in f.all_params or 'model' not in f.all_params:
+            continue
+        n += 1
+        reads = [a for a in ast.walk(f.node) if isinstance(a, ast.Attribute) and a.attr in ('dataset', '_dataset')
+                 and isinstance(a.value, ast.Name) and a.value.id == 'model']
+        # the resolving expression: a conditional (expression or statement) that tests `dataset is None`
+        resolving = set()
+        for x in ast.walk(f.node):
+            if isinstance(x, (ast.IfExp, ast.If)) and 'dataset' in {y.id for y in ast.walk(x.test) if isinstance(y, ast.Name)}:
+                for part in ([x.body, x.orelse] if isinstance(x, ast.IfExp) else x.body + x.orelse):
+                    for y in ast.walk(part):
+                        resolving.add(id(y))
+        stray = [a for a in reads if id(a) not in resolving]
+        chk.instance(F15, f'{f.qualname}: {len(reads)} reads of model.dataset, outside the resolution of the argument: {len(stray)}')
+        for a in stray:
+            chk.violation(F15, em.rel, f.qualname, unparse(a),
+                          'model.dataset is read although a dataset may have been passed in: what is computed from it (the '
+                          'individuals, the records) belongs to the model\'s own data', line=a.lineno,
+                          witness='evaluate_individual_prediction(model, dataset=other) where `other` has individuals the '
+                                  'model data does not have: their IPRED is NaN')
+    if n < 4:
+        raise AnalysisError(f'F15: only {n} functions with a dataset argument found in modeling/evaluation.py')
